@@ -6,7 +6,7 @@ SECTIONS = ["ops"]
 LEAN_MODULES = ["QExPy.Props.C01"]
 LEMMA_MODULES = ["QExPy.Lemmas.Rules", "QExPy.Props.C03"]
 THEOREMS = ["QExPy.rule1", "QExPy.rule2", "QExPy.rule_pow_const", "QExPy.C03_diff_correct",
-            "QExPy.C01_value", "QExPy.C01_quadratic_form", "QExPy.C01_error",
+            "QExPy.C01_value", "QExPy.C01_statement_form", "QExPy.C01_quadratic_form", "QExPy.C01_error",
             "QExPy.C01_partials_exact", "QExPy.C01_perm_invariant", "QExPy.C01_self_cancel_sub",
             "QExPy.C01_self_cancel_div", "QExPy.C01_sums_nonneg"]
 RULE = ("seeded formula DAGs as in C03 with correlations set through q.set_correlation "
